@@ -244,8 +244,18 @@ impl TrackerChild {
             } else {
                 for a in [SocketAddr::new(IpAddr::V4(Ipv4Addr::LOCALHOST), self.port), SocketAddr::new(IpAddr::V6(Ipv6Addr::LOCALHOST), self.port)] {
                     if TcpStream::connect_timeout(&a, Duration::from_millis(200)).is_ok() {
-                        std::thread::sleep(Duration::from_millis(150)); // all socket workers listen on the same port
-                        return true;
+                        // a socket worker listens before it has joined its channel meshes: ready means that requests are
+                        // answered. All socket workers share the port, so a dozen fresh connections in a row have to be served.
+                        let mut served = 0;
+                        while served < 12 && t0.elapsed() < Duration::from_secs(secs) && self.exited().is_none() {
+                            if serving(self.kind, a, 0x5eed_0000 + served as u64) {
+                                served += 1;
+                            } else {
+                                served = 0;
+                                std::thread::sleep(Duration::from_millis(100));
+                            }
+                        }
+                        return served >= 12;
                     }
                 }
             }
@@ -470,6 +480,49 @@ pub fn http_announce_path(hash: &[u8; 20], peer_id: &[u8; 20], port: u16, left: 
 
 pub fn http_get(path: &str, extra_headers: &str) -> Vec<u8> {
     format!("GET {} HTTP/1.1\r\nHost: t\r\n{}\r\n", path, extra_headers).into_bytes()
+}
+
+/// Does the tracker answer a real request on a fresh connection to `addr` within 5 s (HTTP: plain announce; WS: scrape)?
+pub fn serving(kind: &str, addr: SocketAddr, tag: u64) -> bool {
+    if kind == "http" {
+        // a reply, or the connection closed by the tracker (e.g. a tracker behind a reverse proxy refusing a request without
+        // its header): either way a socket worker has read and processed the request
+        let mut h = [0x5a_u8; 20];
+        h[..8].copy_from_slice(&tag.to_be_bytes());
+        match HttpConn::connect(addr) {
+            // (the headers are for trackers configured to run behind a reverse proxy: without one the request is a breach of
+            // the documented deployment contract)
+            Some(mut c) => c.send(&http_get(&http_announce_path(&h, &[b'L'; 20], 4000, 1, "started", None, 0), "X-Forwarded-For: 127.0.0.9\r\nX-Real-Client: 127.0.0.9\r\n")) && !matches!(c.read_reply(), Err(HttpErr::Timeout(_))),
+            None => false,
+        }
+    } else {
+        match WsConn::connect(addr) {
+            Some(mut c) => {
+                let mut h = [0x5bu8; 20];
+                h[..8].copy_from_slice(&tag.to_be_bytes());
+                c.send_text(serde_json::json!({"action": "scrape", "info_hash": id20(&h)}).to_string()) && c.recv_text(5000).is_some()
+            }
+            None => false,
+        }
+    }
+}
+
+/// Every socket worker of a tracker started with one port per worker (hook H7) answers a real request; up to `secs`
+pub fn all_workers_serving(kind: &str, base_port: u16, workers: u8, secs: u64) -> bool {
+    let t0 = Instant::now();
+    for w in 0..workers {
+        let addr = SocketAddr::new(IpAddr::V4(Ipv4Addr::LOCALHOST), base_port + w as u16);
+        loop {
+            if serving(kind, addr, 0x5eed_1000 + w as u64) {
+                break;
+            }
+            if t0.elapsed() > Duration::from_secs(secs) {
+                return false;
+            }
+            std::thread::sleep(Duration::from_millis(100));
+        }
+    }
+    true
 }
 
 /// Thread states of a child process read from /proc (no ptrace: attaching would interrupt its system calls)
